@@ -195,7 +195,7 @@ type Options struct {
 // Verify symbolically executes fn against its contract and collects obligations.
 func (e *Engine) Verify(fn *ssa.Function, ct *Contract, props []string, opt Options) (vc *VC) {
 	vc = &VC{eng: e, fn: fn, contract: ct, props: props, declSet: map[string]bool{}, iterPid: map[string]int{}, iterSeekState: map[string]string{}, notes: map[string]bool{}, used: map[string]bool{},
-		valueLabels: map[string]string{}, maxPaths: opt.MaxPaths, inlineDepth: opt.InlineDepth, lets: map[string]SV{}, key: opt.Key}
+		valueLabels: map[string]string{}, maxPaths: opt.MaxPaths, inlineDepth: opt.InlineDepth, lets: map[string]SV{}, key: opt.Key, thorough: opt.Tier == "thorough"}
 	if ct != nil {
 		vc.safety = ct.Safety
 	}
